@@ -115,9 +115,15 @@ def _call(I: Interp, model: PyModel, method: str, comp, ctx, st: State):
     fi = model.func(f"{CLS}.{method}")
     I.ctx_stack.append((fi.module, fi.cls))
     try:
-        return I.call_func(fi.qualname, [comp, ctx], {}, st)
+        res = I.call_func(fi.qualname, [comp, ctx], {}, st)
     finally:
         I.ctx_stack.pop()
+    sink = getattr(I, "imprecision_sink", None)
+    if sink is not None:
+        for _, s in res:
+            if s.imprecise:
+                sink(s.imprecise)
+    return res
 
 
 def _set_items(st: State, v) -> list:
@@ -147,6 +153,7 @@ def check(run: Run) -> None:
     century_rule(run, model, "C04.R3")
     specs = Specs()
     I = make_interp(model, specs, g)
+    run.watch(I)
     NT = _enum(I, model, "NoteType")
     idtext = SeqStr((CharSet(LOWER, sym=1), CharSet(ALNUM, sym=2), CharSet(ALNUM, sym=3)))
 
@@ -386,6 +393,7 @@ def check(run: Run) -> None:
         ok = want in got and set(got) <= {want, "raises RuntimeError"}
         run.check("C04.R3", f"a {nm} spec is read as a {want} date", ok, "from_date_spec", f"{nm} -> {got}", f"a date spec of shape {nm} is interpreted as {got}, expected {want}", file=FILE_D)
     I4 = make_interp(model, specs, g)
+    run.watch(I4)
     unit_want = {"d": ("timedelta", "days"), "m": ("relativedelta", "months"), "y": ("relativedelta", "years")}
     for unit, (ctor, kw) in unit_want.items():
         for variant, past, sign in ((f"7{unit}", False, "+"), (f"-7{unit}", False, "-"), (f"7{unit.upper()}", False, "+"), (f"7{unit}", True, "-")):
